@@ -31,10 +31,21 @@ SIG_TOL = 1e-6          # dB, oracle on propagated signal power (phase-1 measure
 # ------------------------------------------------------------------ generator
 def gen_span(rng):
     step = rng.choice([0.5, 0.5, 0.5, 0.1, 0.2, 1, 0.25, 0, 0.05, 0.3])
-    lo = rng.choice([-2, -2, -3, -1, 0, -0.5, -6])
-    hi = rng.choice([3, 3, 2, 0, 1, 0.5, 6])
-    if lo > hi and rng.random() < 0.8:
-        lo, hi = hi, lo
+    # the allowed offsets, at every position relative to 0: around it, ending / starting at it, entirely above, entirely
+    # below, a single value (0 or not), bounds in the wrong order
+    u = rng.random()
+    if u < 0.5:
+        lo, hi = rng.choice([-2, -2, -3, -1, -0.5, -6]), rng.choice([3, 3, 2, 1, 0.5, 6])
+    elif u < 0.6:
+        lo, hi = rng.choice([(0, 3), (0, 1), (-2, 0), (-6, 0), (0, 0.5)])
+    elif u < 0.72:
+        lo, hi = rng.choice([(1, 3), (0.5, 2), (2, 6), (0.25, 1)])
+    elif u < 0.84:
+        lo, hi = rng.choice([(-3, -1), (-2, -0.5), (-6, -2), (-1, -0.25)])
+    elif u < 0.95:
+        lo, hi = rng.choice([(0, 0), (0, 0), (1, 1), (-2, -2), (0.5, 0.5)])
+    else:
+        lo, hi = rng.choice([(3, -2), (1, 0), (0, -1), (2, 1)])
     dpr = [lo, hi, step]
     if rng.random() < 0.03:
         dpr = dpr[:2]                                  # malformed stream: ConfigurationError expected
@@ -1027,8 +1038,9 @@ def run(ctx):
         ctx.proof['failed_file'] = 'theories/Gen/PowerDesignGen.v (translation of /repo source failed)'
     ctx.rule = ('random networks (0-4 ROADMs + optional point-to-point line, 1-4 spans per direction, fibre/fused spans, '
                 'explicit amplifiers with full / partial / no operator settings and imposed variety or variety list, '
-                'auto-inserted boosters/preamps/in-line amplifiers) x random Span (power/gain mode, delta_power_range, '
-                'slope, reference, padding, EOL, connectors, VOA margin/step, extended gain), SI (4-40 channels, '
+                'auto-inserted boosters/preamps/in-line amplifiers) x random Span (power/gain mode, delta_power_range '
+                'around / touching / above / below 0, single-valued, inverted; slope, reference, padding, EOL 0-3 dB with '
+                'given and defaulted fibre connectors, VOA margin/step, extended gain), SI (4-40 channels, '
                 'reference and tx power) and ROADM configurations (three policies, per-degree targets, restrictions) x '
                 'random libraries; one evaluation = one OMS; non-trivial = at least two amplifiers; distinct by hash')
     cases = []
@@ -1244,17 +1256,35 @@ def oracle_static(ctx, c, built, o, p0, pref_ch, pref_total, desc, case):
     fibs = {f['uid']: f for f in o['fibs']}
     snaps = {s['uid']: s for s in o['snap']}
     o['_excess'] = {}
+
+    def floss(k):
+        """loss of fibre k of the OMS as documented, from the loaded topology and the Span configuration: linear loss +
+        connectors (the given value, else the Span default; the EOL margin on top of the output connector of every fibre
+        that ends a span, i.e. is not followed by a Fused - the rule C08's connector_value oracle checks) + the designed att_in"""
+        n, sn = o['nodes'][k], o['snap'][k]
+        nxt_fused = k + 1 < len(o['nodes']) and isinstance(o['nodes'][k + 1], E.Fused)
+        con_in = sn['con_in'] if sn['con_in'] is not None else span['con_in']
+        con_out = (sn['con_out'] if sn['con_out'] is not None else span['con_out']) + (0.0 if nxt_fused else span['EOL'])
+        return sn['lin'] + float(con_in) + float(con_out) + float(fibs[n.uid]['att_in'])
+    pos = {n.uid: k for k, n in enumerate(o['nodes'])}
+    for k, n in enumerate(o['nodes']):
+        if isinstance(n, E.Fiber) and fibs[n.uid]['loss'] is not None:
+            ctx.count('fibre_losses_checked')
+            if abs(fibs[n.uid]['loss'] - floss(k)) > 1e-9:
+                ctx.violation('fibre_loss', f"{desc}: {n.uid} loses {fibs[n.uid]['loss']} dB after the design, linear loss + "
+                              f"connectors (con_in/con_out given {o['snap'][k]['con_in']}/{o['snap'][k]['con_out']}, defaults "
+                              f"{span['con_in']}/{span['con_out']}, EOL {span['EOL']}) + att_in = {floss(k)} dB", case)
     span_excess = 0.0          # cached design loss minus real loss of the span just crossed
     span_user_att = 0.0        # operator att_in of the first fibre of that span, if the span was padded
     for idx, n in enumerate(o['nodes']):
         if isinstance(n, E.Fiber):
             f = fibs[n.uid]
             # a RamanFiber gives back the gain estimated at its designed input power
-            p -= f['loss'] - (snaps[n.uid]['g_cached'] if snaps[n.uid].get('raman') else 0.0)
+            p -= floss(idx) - (snaps[n.uid]['g_cached'] if snaps[n.uid].get('raman') else 0.0)
             if f['dsl'] is not None:
                 j, real, first = idx, 0.0, None
                 while j >= 0 and isinstance(o['nodes'][j], (E.Fiber, E.Fused)):
-                    real += float(o['nodes'][j].loss)
+                    real += floss(j) if isinstance(o['nodes'][j], E.Fiber) else float(o['nodes'][j].loss)
                     if snaps[o['nodes'][j].uid].get('raman'):
                         real -= snaps[o['nodes'][j].uid]['g_cached']
                     first = o['nodes'][j]
@@ -1319,7 +1349,8 @@ def oracle_static(ctx, c, built, o, p0, pref_ch, pref_total, desc, case):
                         nloss = fibs[run[0].uid]['dsl']          # the cached design loss (checked against the real one above)
                     else:
                         # before the walk reaches a RamanFiber its gain is estimated at the reference power
-                        nloss = sum(float(x.loss) - (snaps[x.uid]['g_ref'] if snaps[x.uid].get('raman') else 0.0) for x in run)
+                        nloss = sum((floss(pos[x.uid]) if isinstance(x, E.Fiber) else float(x.loss))
+                                    - (snaps[x.uid]['g_ref'] if snaps[x.uid].get('raman') else 0.0) for x in run)
                     exp_dp, tie = expected_rule(span, nloss)
                 if tie < 1e-9:
                     ctx.count('rule_not_judged_tie')
